@@ -96,7 +96,7 @@ def check_end_handling(F, run, sname):
         g = cfg.guards_of(b["body"], n)
         run.check(has_guard(F, b, g, lambda c: is_time_ge_end(F, b, c), False), "R1.2a", dp, "behind-end-test:%s#%d" % (site, n_sites), F.loc(b, n),
                   "%s is not dominated by the `time >= end ⇒ Done` test: the solver can move past the end time" % site)
-    run.floor("R1.2a", dp, "guarded sites", n_sites, {"Euler": 3, "RungeKutta": 3, "Adams": 6, "BDF": 6}[sname], F.loc(b))
+    run.floor("R1.2a", dp, "guarded sites", n_sites, {"Euler": 2, "RungeKutta": 2, "Adams": 3, "BDF": 3}[sname], F.loc(b))
     # clip for the single-step solvers
     if sname in ("Euler", "RungeKutta"):
         clips = []
@@ -319,7 +319,7 @@ def write_never_grows(F, b, n):
 def check_dt_writes(F, run, sname, b):
     dp = sname + "Solver::step"
     writes = [n for n in walk(b["body"], into_closures=False) if n.get("k") in ("Assign", "AssignOp") and place(n["l"]) == "self.dt"]
-    run.floor("R1.3", dp, "writes to self.dt", len(writes), {"Euler": 1, "RungeKutta": 5, "Adams": 7, "BDF": 5}[sname], F.loc(b))
+    run.floor("R1.3", dp, "writes to self.dt", len(writes), {"Euler": 1, "RungeKutta": 2, "Adams": 3, "BDF": 2}[sname], F.loc(b))
     for i, n in enumerate(writes):
         cls, detail = classify_dt_write(F, b, n)
         g = cfg.guards_of(b["body"], n)
